@@ -82,5 +82,23 @@ _cond("C20", [("MC_C20", "MC_C20_quick.cfg")],
       "Truncated moments are specified as values with Phi/phi atoms at rational standardised limits through an antiderivative whose correctness TLC checks as a polynomial identity (certificate), together with additivity over adjacent intervals (cut-point atoms cancel symbolically) and agreement with Isserlis moments for the untruncated interval; every configuration (measure / density base, truncated measure / normalised pdf, finite / one-sided / far-tail limits, scalar / array limits, k = 0..6, call inside / outside / on the boundary, mean, variance) is replayed into the code.",
       "R in {1,2}; 8 limit patterns; k in 0..6; tolerance as stated by the property (1e-8 of the untruncated |x|^k integral; ratios whose truncated mass is below float64 cdf resolution are counted as skipped)")
 
+_cond("C19", [("MC_C19", "MC_C19_quick.cfg")],
+      "Specification: sample(key,n)[s][r] = mu_r + L_r z[s][r] with z the key's normal stream of shape (n,R,D); TLC checks L_r L_r' = Sigma_r for the factor paired with each component. Binding: the code is run with jax.random.normal replaced by TLC-chosen integer streams and by every one-hot basis stream (this extracts the code's full coefficient tensor: independence across draws and components, factor/component pairing, shape, single use of the caller's key), and un-patched with real keys (equality with mu + L normal(key), reproducibility). Given this structure the law follows from jax.random.normal being iid N(0,1) (trusted); a 6-standard-error moment check is kept as an auxiliary line.",
+      "D,R in 1..3, pairwise distinct strongly correlated covariances with exactly known Cholesky factors")
+
+PROPS["C18"] = {
+    "runner": "c18",
+    "quick": [{"module": "MC_C01", "cfg": "MC_C15a_quick.cfg", "nprimes": 6},
+              {"module": "MC_COND", "cfg": "MC_C15b_quick.cfg", "nprimes": 6},
+              {"module": "MC_C03", "cfg": "MC_C15c_quick.cfg", "nprimes": 6},
+              {"module": "MC_C11", "cfg": "MC_C11k_quick.cfg", "nprimes": 14, "kalman": True}],
+    "quick_n_jit": 25, "quick_n_prog": 6,
+    "thorough_n_jit": 250, "thorough_n_prog": 40,
+    "level_text": "(i) The pytree / to_dict protocol is a TLA+ state machine (spec/Pytree.tla) over a class table extracted from the current code (fields, init flags, __dict__ keys of fresh and cache-warmed instances, flatten output, to_dict keys); TLC checks that no class in any cache state can reach a rejected protocol state (flatten, unflatten, traced argument, to_dict, from_dict, iterated). (ii) Behaviours of the specification are replayed with EVERY step executed as jax.jit(step)(operand objects), so operands, results and mutated objects cross the boundary as pytrees, and all observables are compared with the exact expected values (hence with the eager run). (iii) Whole behaviours as one jitted program, reverse-mode gradient along a fixed input direction vs central differences, the Kalman filter as lax.scan with the density as carry, evaluation / set_y / condition_on_x under vmap over the data axis.",
+    "level_note": _LN + " Gradients are checked against finite differences (1e-5 relative), not against the specification. NN-controlled conditionals carry a Python callable and are outside the pytree clause.",
+    "explanation": "class-table model + sampled behaviours of MC_C01 / MC_COND / MC_C03 / MC_C11(kalman) under jit, grad, scan, vmap",
+    "technique": "TLC on a protocol model extracted from the code + TLC behaviours replayed under jit/vmap/scan/grad",
+}
+
 NOT_APPLICABLE = {}
 HOOK_COMMITS = []
